@@ -6,7 +6,7 @@
     C <kind h|s> <prod 0|1>
     A <id> <fixed> <start> <end> <dur> <trigBy> <owner> <now> | <obs>
     R <state> <te> <now> | <obs>
-    T <now> | <obs>
+    T <now> <fired 0|1: the start timer was among the due timers (oracle input)> | <obs>
     X <id> <reason 1 user|2 owner> <now> | <obs>
     P <paused 0|1> <now> | <obs>
     <obs> = <rc> <depth> <inDowntime> <n> (<id> <trigger>)*n <m> (<ev> <id> <count>)*m
@@ -34,6 +34,7 @@ structure DSt where
   pumps : Nat := 0
   removes : Nat := 0
   pauses : Nat := 0
+  timerFired : Nat := 0
   triggered : Nat := 0
   cascades : Nat := 0
   expired : Nat := 0
@@ -104,9 +105,10 @@ def parseOp (pre : List String) : Option Op :=
     let te ← parseInt? te
     let nw ← parseInt? nw
     if s ≤ 3 then pure (.result s te nw) else none
-  | ["T", nw] => do
+  | ["T", nw, f] => do
     let nw ← parseInt? nw
-    pure (.pump nw)
+    let f ← parseBool? f
+    pure (.pump nw f)
   | ["X", id, rs, nw] => do
     let id ← parseNat? id
     let rs ← parseNat? rs
@@ -159,12 +161,12 @@ def handle (d : DSt) (n : Nat) (line : String) : IO DSt := do
       d := match op with
         | .add _ _ => { d with adds := d.adds + 1 }
         | .result _ _ _ => { d with results := d.results + 1 }
-        | .pump _ => { d with pumps := d.pumps + 1 }
+        | .pump _ f => { d with pumps := d.pumps + 1, timerFired := d.timerFired + (if f then 1 else 0) }
         | .remove _ _ _ => { d with removes := d.removes + 1 }
         | .setPaused _ _ => { d with pauses := d.pauses + 1 }
       let cnt := fun (ev : Nat) => ((io.evs.filter (fun e => e.1 == ev)).map (·.2.2)).sum
       let trigIds := (io.evs.filter (fun e => e.1 == 3)).length
-      let isPump := match op with | .pump _ => true | _ => false
+      let isPump := match op with | .pump _ _ => true | _ => false
       d := { d with triggered := d.triggered + cnt 3, startReq := d.startReq + cnt 1, endReq := d.endReq + cnt 2,
                     cascades := d.cascades + (if trigIds ≥ 2 then 1 else 0),
                     expired := d.expired + (if isPump then cnt 4 else 0),
@@ -177,4 +179,4 @@ def handle (d : DSt) (n : Nat) (line : String) : IO DSt := do
 def main : IO Unit := do
   let stdin ← IO.getStdin
   let d ← foldLines stdin handle ({} : DSt)
-  IO.println s!"STATS cases={d.caseNo} steps={d.steps} adds={d.adds} results={d.results} pumps={d.pumps} removes={d.removes} pauses={d.pauses} triggered={d.triggered} cascades={d.cascades} expired={d.expired} refused={d.refused} startreq={d.startReq} endreq={d.endReq} nontrivial={d.nontrivial} mismatches={d.mismatches} specfails={d.specfails}"
+  IO.println s!"STATS cases={d.caseNo} steps={d.steps} adds={d.adds} results={d.results} pumps={d.pumps} removes={d.removes} pauses={d.pauses} timerfired={d.timerFired} triggered={d.triggered} cascades={d.cascades} expired={d.expired} refused={d.refused} startreq={d.startReq} endreq={d.endReq} nontrivial={d.nontrivial} mismatches={d.mismatches} specfails={d.specfails}"
